@@ -5,7 +5,7 @@
 # The worktree is /var/tmp/wt-c03 (create: git -C /repo worktree add -q --detach /var/tmp/wt-c03).
 import os, sys, subprocess, re
 
-WT = '/var/tmp/wt-c03'
+WT = os.environ.get('C03_MUT_WT', '/var/tmp/wt-c03')
 VERIF = os.path.dirname(os.path.dirname(os.path.abspath(__file__)))
 
 # name -> (file, old, new)
@@ -59,6 +59,20 @@ MUT = {
         'bb_first_version': ('mir-gen.c', '(void) get_bb_version (gen_ctx, &((struct bb_stub *) func_item->data)[0], 0, NULL, TRUE, &addr);',
                              '(void) get_bb_version (gen_ctx, &((struct bb_stub *) func_item->data)[1], 0, NULL, TRUE, &addr);'),
         'direct_call_wrong': ('mir-gen-x86_64.c', None, None),
+        # ---- round 2 (auditor) ----
+        # rel32 call without the range test: wrong only when code regions are > 2 GiB apart (far code allocator)
+        'direct_call_far': ('mir-gen-x86_64.c', '    if (!int32_p (off)) continue;', '    if (0 && !int32_p (off)) continue;'),
+        'bb_thunk_disp': ('mir-x86_64.c', 'disp = (int32_t) ((char *) handler - ((char *) res + sizeof (pattern)));',
+                          'disp = (int32_t) ((char *) handler - ((char *) res + sizeof (pattern) - 1));'),
+        # the second label of a chain of labels gets no bb stub
+        'bb_label_chain': ('mir-gen.c', '''             last_lab_insn = insn, insn = DLIST_NEXT (MIR_insn_t, insn))
+          insn->data = &bb_stubs[n_bbs];''', '''             last_lab_insn = insn, insn = DLIST_NEXT (MIR_insn_t, insn))
+          if (n_bbs % 4 != 3) insn->data = &bb_stubs[n_bbs];'''),
+        # function address value depends on the engine: the interpreter-side shim address instead of the thunk
+        'h_disp_expr': ('mir-x86_64.c', "int64_t disp = (char *) to - ((char *) thunk + 5);",
+                        "int64_t disp = (int64_t) ((uintptr_t) to - (uintptr_t) thunk) - 5; /* harmless */"),
+        'h_get_ref': ('mir-gen.c', '  return (uint64_t) ref_op->u.ref->addr;\n}',
+                      '  { MIR_item_t it = ref_op->u.ref; void *a = it->addr; return (uint64_t) a; } /* harmless */\n}'),
     },
     'C16': {
         'restore_keeps_vars': ('mir.c', 'while (VARR_LENGTH (MIR_var_t, func->vars) > func->original_vars_num) {',
@@ -93,6 +107,29 @@ MUT = {
     _MIR_redirect_thunk (ctx, func_item->addr, func_item->u.func->call_addr);
     DEBUG (2, {
       fprintf (debug_file, "+++++++++++++The code for %s has been already generated\\n",'''),
+        # ---- round 2 (auditor) ----
+        'reg_num_no_globals': ('mir.c', '  if (func->global_vars != NULL) reg += (MIR_reg_t) VARR_LENGTH (MIR_var_t, func->global_vars);',
+                               '  if (0 && func->global_vars != NULL) reg += (MIR_reg_t) VARR_LENGTH (MIR_var_t, func->global_vars);'),
+        'restore_reg2rdn_kept': ('mir.c', '    res_p &= HTAB_DO (size_t, func_regs->reg2rdn_tab, rdn, HTAB_DELETE, tab_rdn);\n    mir_assert (res_p);\n  }\n  while ((insn = DLIST_HEAD',
+                                 '    mir_assert (res_p);\n  }\n  while ((insn = DLIST_HEAD'),
+        'ovn_globals': ('mir.c', '  func->original_vars_num = VARR_LENGTH (MIR_var_t, func->vars);',
+                        '  func->original_vars_num = VARR_LENGTH (MIR_var_t, func->vars) + (func->global_vars != NULL);'),
+        'revert_C16_2': ('mir-interp.c', '    insn->data = NULL; /* it was used only for interpretation preparation */',
+                         '    ; /* it was used only for interpretation preparation */'),
+        'revert_C16_3': ('mir-gen.c', '  func_item->data = saved_data;', '  ;'),
+        'h_restore_lookup_first': ('mir.c', '''    MIR_var_t var = VARR_POP (MIR_var_t, func->vars);
+    func_regs_t func_regs = func->internal;
+
+    rd = find_rd_by_name (ctx, var.name, func);''', '''    MIR_var_t var = VARR_LAST (MIR_var_t, func->vars);
+    func_regs_t func_regs = func->internal;
+
+    rd = find_rd_by_name (ctx, var.name, func);
+    VARR_POP (MIR_var_t, func->vars); /* harmless */'''),
+        'h_dup_varr_size': ('mir.c', '''  VARR_CREATE (MIR_insn_t, labels, ctx->alloc, 0);
+  VARR_CREATE (MIR_insn_t, branch_insns, ctx->alloc, 0);
+  for (insn = DLIST_HEAD (MIR_insn_t, func->original_insns); insn != NULL;''', '''  VARR_CREATE (MIR_insn_t, labels, ctx->alloc, 16);
+  VARR_CREATE (MIR_insn_t, branch_insns, ctx->alloc, 16);
+  for (insn = DLIST_HEAD (MIR_insn_t, func->original_insns); insn != NULL;'''),
     },
 }
 
